@@ -1,8 +1,11 @@
 CONSTANTS Urls <- UrlsC
           Texts <- TextsC
+          Cfgs <- OneCfg
+          ConfigRebuilds = TRUE
           MaxMsgs = 4
           MaxInFlight = 3
           VersionGuard = TRUE
+          RefreshFromMemory = TRUE
 INIT LInit
 NEXT LNext
 INVARIANTS LastWord
